@@ -21,3 +21,10 @@ def run(project, rep):
     T.t_r4(project, rep)
     T.t_r5(project, rep)
     T.t_r6(project, rep)
+    T.t_r7(project, rep)
+    from .. import rules_dates as Z
+    from .. import rules_wire as L
+    Z.z_r2_naive(project, rep)
+    Z.z_r4_conversion(project, rep)
+    Z.z_r5_offset_sign(project, rep)
+    L.l_r3_datetime(project, rep)
